@@ -193,8 +193,19 @@ static J gen_slab(Chooser &ch)
   J G = J::obj();
   gen_globals(ch, G);
   c["globals"] = G;
+  // 45%: a cold overriding plate (linear from the surface temperature to 1500..1700 K at 80..150 km) lies over the dip side and is
+  // painted before the slab, so the slab model meets an ambient temperature below the adiabat in the fore-arc
+  if (ch.chance(45))
+    {
+      J ov = J::obj();
+      ov["thickness"] = ch.lattice(80e3, 150e3, 10e3);
+      ov["bottom"] = ch.lattice(1500, 1700, 50);
+      c["overriding"] = ov;
+    }
   J pts = J::arr();
   for (int i = 0; i < 30; ++i) { J p = J::obj(); p["s"] = ch.real(0.1, 0.9); p["l"] = ch.real(0.02, 0.98); p["n"] = ch.real(-0.3, 1.0) * c["thick"].num(); pts.push(p); }
+  // the uppermost kilometres of the fore-arc next to the trench, given directly as horizontal offset and depth
+  for (int i = 0; i < 10; ++i) { J p = J::obj(); p["s"] = ch.real(0.1, 0.9); p["ux"] = ch.real(0, 150e3); p["uz"] = ch.chance(50) ? ch.real(50, 3e3) : ch.real(3e3, 40e3); pts.push(p); }
   c["points"] = pts;
   return c;
 }
@@ -234,12 +245,30 @@ static Result check_slab(const J &c)
     }
   feat["temperature models"] = J::arr({m});
   root["features"] = J::arr({feat});
+  std::unique_ptr<WB::World> ambient_world; // the same world without the slab
+  if (c.has("overriding"))
+    {
+      J ov = J::obj();
+      ov["model"] = "continental plate"; ov["name"] = "overriding plate";
+      const double w = 1500e3, e = 300e3; // from the trench 1500 km towards the dip side, 300 km beyond both trench ends
+      ov["coordinates"] = J::arr({jp(x0 - tx * e, y0 - ty * e), jp(x1 + tx * e, y1 + ty * e), jp(x1 + tx * e + nx * w, y1 + ty * e + ny * w), jp(x0 - tx * e + nx * w, y0 - ty * e + ny * w)});
+      ov["max depth"] = c.at("overriding").at("thickness");
+      J lt = J::obj();
+      lt["model"] = "linear"; lt["max depth"] = c.at("overriding").at("thickness"); lt["top temperature"] = G.Ts; lt["bottom temperature"] = c.at("overriding").at("bottom");
+      ov["temperature models"] = J::arr({lt});
+      J amb = root;
+      amb["features"] = J::arr({ov});
+      ambient_world = make_world(amb.dump(), 1, "ambient");
+      root["features"] = J::arr({ov, feat});
+      r.classes.push_back("cold overriding plate over the fore-arc");
+    }
   auto W = make_world(root.dump());
   r.classes.push_back("slab/" + kind + (kind == "mass conserving" ? " ref " + m.at("reference model name").str() : ""));
   for (const auto &p : c.at("points").a)
     {
       double qx, qy;
-      ref::planar_slab_point(segs, p.at("l").num() * total, p.at("n").num(), qx, qy);
+      if (p.has("ux")) { qx = p.at("ux").num(); qy = -p.at("uz").num(); }
+      else ref::planar_slab_point(segs, p.at("l").num() * total, p.at("n").num(), qx, qy);
       const double depth = -qy;
       if (depth < 1 || depth > H - 1) continue;
       const double s = p.at("s").num() * len, X = x0 + s * tx + qx * nx, Y = y0 + s * ty + qx * ny;
@@ -247,11 +276,15 @@ static Result check_slab(const J &c)
       try { out = W->properties({{X, Y, H - depth}}, depth, {{{1, 0, 0}}, {{4, 0, 0}}}); }
       catch (const std::exception &) { r.classes.push_back("model throws(skipped)"); continue; }
       if (out[1] == -1) continue;
-      const double ambient = adiabat(G, depth);
+      // ambient = what the world holds there without the slab; the upper bound is the larger of that and the background adiabat
+      const double here = ambient_world ? ambient_world->temperature({{X, Y, H - depth}}, depth) : adiabat(G, depth);
+      const double ambient = std::max(here, adiabat(G, depth));
       r.inner++;
-      if (std::fabs(out[0] - ambient) < 1.0) continue; // the model did not replace the temperature here
+      if (std::fabs(out[0] - here) < 1.0) continue; // the model did not replace the temperature here
       r.inner_nt++; r.nontrivial = true;
-      const double tau = 1e-9 * ambient + 1e-6;
+      if (ambient_world && here < adiabat(G, depth) - 1.0) r.classes.push_back(depth < 3e3 ? "fore-arc probe, top 3 km, ambient below the adiabat" : "ambient below the adiabat");
+      // rounding allowance: the models evaluate series / error functions scaled by the temperature range (1e-8 of it)
+      const double tau = 1e-9 * ambient + 1e-6 + 1e-8 * std::fabs(ambient - G.Ts);
       if (out[0] > ambient + tau)
         return Result::fail("slab-above-ambient/" + kind, "slab '" + kind + "' returns " + fmt(out[0]) + " at depth " + fmt(depth) + ", hotter than the ambient/background adiabat " + fmt(ambient) + "; model " + m.dump());
       if (out[0] < G.Ts - tau)
@@ -269,6 +302,6 @@ int main(int argc, char **argv)
   return run_main("C20", argc, argv,
   {
     {"oceanic_envelope", "cartesian oceanic plates (min depth 0, constant max depth) with half space / plate / constant-age / linear models, top <= bottom temperature (or adiabatic bottom), ridges of 2..4 points at any azimuth or straight, spreading 1..20 cm/yr, ages 1..200 Myr; interior probes: value inside [top, bottom] (Gibbs allowance for the 100-term series next to the surface), rising with depth, falling with age (straight ridges), top temperature at depth 0, bottom temperature at the max depth (plate and linear models)", 120, gen_oceanic, check_oceanic, 100, true, true},
-    {"slab_envelope", "straight cartesian slabs (1..3 straight/arc segments, thickness 100..300 km, top truncation 0..-100 km) with the mass conserving (half-space or plate reference, spline on/off, forearc cooling factor 1..20) or plate model temperature; probes generated in slab coordinates; where the model changes the temperature (> 1 K from ambient) the value lies between the world's surface temperature and the background adiabat at that depth", 120, gen_slab, check_slab, 100, true, true},
+    {"slab_envelope", "straight cartesian slabs (1..3 straight/arc segments, thickness 100..300 km, top truncation 0..-100 km) with the mass conserving (half-space or plate reference, spline on/off, forearc cooling factor 1..20) or plate model temperature; probes generated in slab coordinates; where the model changes the temperature (> 1 K from ambient) the value lies between the world's surface temperature and the larger of the ambient temperature (the same world without the slab; 45% of the cases have a cold overriding plate over the fore-arc) and the background adiabat at that depth; 10 extra probes in the uppermost kilometres next to the trench", 120, gen_slab, check_slab, 100, true, true},
   });
 }
